@@ -663,3 +663,98 @@ class MoveSpec:
 
 def move_factory(n):
     return MoveSpec(n)
+
+
+class CtorPatSpec:
+    """C09, constructor patterns: InferCtx::infer_pattern (real MIR, real table) on  C(p1, .., l: pk, ..)  built as arena data, for a
+    constructor whose m fields carry labels chosen by the solver from {none, a, b} (distinct when present, unlabelled fields first) and a pattern whose k
+    sub-patterns are positional first and then labelled with labels of the constructor (chosen by the solver, distinct).  Gleam binds the
+    i-th positional sub-pattern to field i and a labelled one to the field of that label (which must not be one of the first fields taken
+    positionally); afterwards the type variable of each sub-pattern must be unified with the type variable of exactly that field."""
+
+    def __init__(self, m, k):
+        self.m = m; self.k = k
+
+    def make_interp(self):
+        from . import scopes
+        it = W.interp('ide')
+        install(it); scopes.install(it)
+        m, k = self.m, self.k
+        self.fl = [z3.BitVec('fl%d' % j, 8) for j in range(m)]          # field labels: 0 none, 1 a, 2 b
+        self.npos = z3.BitVec('npos', 8)                                # number of positional sub-patterns
+        self.pl = [z3.BitVec('pl%d' % i, 8) for i in range(k)]          # label of sub-pattern i (used when i >= npos): 1 a, 2 b
+        s = it.solver
+        for f in self.fl:
+            s.add(z3.ULT(f, 3))
+        for i in range(m):
+            for j in range(i + 1, m):
+                s.add(z3.Or(self.fl[i] == 0, self.fl[j] == 0, self.fl[i] != self.fl[j]))
+        # Gleam: unlabelled fields come before labelled ones
+        for j in range(m - 1):
+            s.add(z3.Implies(self.fl[j] != 0, self.fl[j + 1] != 0))
+        s.add(z3.ULE(self.npos, k))
+        for p in self.pl:
+            s.add(z3.UGE(p, 1), z3.ULE(p, 2))
+        for i in range(k):
+            for j in range(i + 1, k):
+                s.add(z3.Implies(z3.ULE(self.npos, i), self.pl[i] != self.pl[j]))
+        spec = self
+
+        def resolve_variant(it_, c, a):
+            return tup(tyvar(spec.ctor_var), VecV([tup(label(LABELS[l]) if l == 0 else some(scopes.smol(StrV(LABELS[l]))), tyvar(spec.field_var[j])) for j, l in enumerate(spec.flabels)]))
+        for key in ('InferCtx::resolve_variant', 'ty::infer::InferCtx::resolve_variant'):
+            it.models[key] = resolve_variant
+        return it
+
+    def run_path(self, it):
+        from . import scopes
+        m, k = self.m, self.k
+        self.flabels = [it.choose([(self.fl[j] == x, x) for x in range(3)]) for j in range(m)]
+        npos = it.choose([(self.npos == x, x) for x in range(k + 1)])
+        plabels = [None] * npos + [it.choose([(self.pl[i] == x, x) for x in (1, 2)]) for i in range(npos, k)]
+        # validity (Gleam): a labelled sub-pattern names a field that exists and is not among the first npos fields; not more positionals than fields
+        if npos > m:
+            raise Pruned()
+        target = list(range(npos))
+        for i in range(npos, k):
+            js = [j for j, l in enumerate(self.flabels) if l == plabels[i]]
+            if not js or js[0] < npos:
+                raise Pruned()
+            target.append(js[0])
+        P = lambda variant, fields: Agg('enum', 'def::module::Pattern', variant, fields)
+        pats = [P('Variable', [scopes.smol(StrV('v%d' % i))]) for i in range(k)]
+        lab = lambda l: none() if l is None else some(scopes.smol(StrV(LABELS[l])))
+        pats.append(P('VariantRef', [scopes.smol(StrV('C')), none(), VecV([tup(lab(plabels[i]), scopes.idx(i)) for i in range(k)])]))
+        bodyv = Agg('struct', 'Body', None, [scopes.ArenaV(pats), scopes.ArenaV([]), VecV([]), none(), scopes.idx(0)])
+        # table: variable j < m is field j (each its own unknown), m is the constructed type, m + 1 the expected type
+        cell = [mk_table([mk('Unknown', j + 1) for j in range(m + 2)])]
+        self.field_var = list(range(m)); self.ctor_var = m
+        bctx, pi, ei = body_ctx()
+        ctx = infer_ctx({'body_ctx': bctx, 'idx': IntV(100, 32, 0), 'body': RefV([bodyv], 0), 'table': RefV(cell, 0)})
+        it.run_body(body(r'^ty::infer::<impl at [^>]*>::infer_pattern$'), [RefV([ctx], 0), scopes.idx(k), tyvar(m + 1)])
+        p2t = bctx.fields[pi].m
+        shown = 'type T { C(%s) }  ..  C(%s)' % (', '.join(('%s: ' % LABELS[l] if l else '') + 'F%d' % j for j, l in enumerate(self.flabels)),
+                                                  ', '.join(('%s: ' % LABELS[l] if l else '') + 'v%d' % i for i, l in enumerate(plabels)))
+        bad = []
+        for i in range(k):
+            if i not in p2t:
+                bad.append('C10: after inferring the pattern `%s` the sub-pattern v%d has no type entry' % (shown, i)); continue
+            r = uf_find(it, cell, p2t[i].fields[0].v)
+            same = [j for j in range(m) if uf_find(it, cell, j) == r]
+            if same != [target[i]]:
+                bad.append('C09: in `%s` the sub-pattern v%d must get the type of field F%d; it is unified with the field(s) %s' % (shown, i, target[i], ['F%d' % j for j in same]))
+        rec = {'cls': 'bound:%dpos+%dlab' % (npos, k - npos), 'ok': True, 'sample': {'pattern': shown}}
+        if bad:
+            tys = ['Int', 'String', 'Float']
+            decl = 'type T { C(%s) }' % ', '.join(('%s: ' % LABELS[l] if l else '') + tys[j] for j, l in enumerate(self.flabels))
+            pat = 'C(%s)' % ', '.join(('%s: ' % LABELS[l] if l else '') + 'v%d' % i for i, l in enumerate(plabels))
+            prog = '%s\nfn f(t: T) { case t { %s -> #(%s) } }\n' % (decl, pat, ', '.join('v%d' % i for i in range(k)))
+            rec.update({'cls': 'violation', 'ok': False, 'why': bad[:3], 'cex': {'pattern': shown, 'program': prog, 'expect': {('v%d' % i): tys[target[i]] for i in range(k)}}})
+        return rec
+
+    def on_panic(self, it, e):
+        return {'cls': 'panic:' + e.kind, 'ok': False, 'why': ['C10: inference of a constructor pattern panics: %s' % e], 'cex': {'panic': str(e), 'stack': list(e.stack[-3:])}}
+
+
+def ctorpat_factory(m, k):
+    return CtorPatSpec(m, k)
